@@ -309,7 +309,7 @@ func orchestrate(prop, tier string) int {
 	ev, viol, known, inf := merge(prop, tier, base, parts)
 	infra = append(infra, inf...)
 	ev["wall_s"] = time.Since(start).Seconds()
-	evdir := filepath.Join(verif, "evidence")
+	evdir := envOr("VERIF_EVIDENCE_DIR", filepath.Join(verif, "evidence"))
 	os.MkdirAll(evdir, 0o755)
 	b, _ := json.MarshalIndent(ev, "", " ")
 	if err := os.WriteFile(filepath.Join(evdir, prop+".json"), b, 0o644); err != nil {
